@@ -158,6 +158,53 @@ def chainTgt (e : SElse) (k : Nat) (done : Name) : Name :=
   | .none => done
   | _ => lIf k
 
+theorem lowerS_ite_eq (lp : Option (Name × Name)) (c : Expr) (t : List SStmt) (e : SElse) (i : Nat) :
+    (lowerS lp (.ite c t e) i).1 = [.jump (chainTgt e i (lDone i)) (some (notE c))] ++ (lowerB lp t (i+1)).1 ++
+      (lowerElse lp (lIf i) (lDone i) e (cntB t (i+1))).1 := by
+  simp only [lowerS, lowerB_cnt]; cases e <;> rfl
+
+theorem lowerElse_elif_eq (lp : Option (Name × Name)) (cur done : Name) (c : Expr) (t : List SStmt) (e : SElse) (j : Nat) :
+    (lowerElse lp cur done (.elif c t e) j).1 =
+      [.jump done none, .label cur, .jump (chainTgt e j done) (some (notE c))] ++ (lowerB lp t (j+1)).1 ++
+      (lowerElse lp (lIf j) done e (cntB t (j+1))).1 := by
+  simp only [lowerElse, lowerB_cnt]; cases e <;> rfl
+
+/-- an else-chain ends with `label done`; the labels before it are `cur` or generated by the chain itself -/
+theorem lowerElse_last (lp : Option (Name × Name)) : ∀ (e : SElse) (cur done : Name) (j : Nat), NoRawE e →
+    ∃ init, (lowerElse lp cur done e j).1 = init ++ [.label done] ∧
+      ∀ l, Stmt.label l ∈ init → l = cur ∨ ∃ K k, l = .gen K k ∧ j ≤ k ∧ k < cntE e j
+  | .none, cur, done, j, _ => ⟨[], rfl, by simp⟩
+  | .els b, cur, done, j, h => by
+      refine ⟨[.jump done none, .label cur] ++ (lowerB lp b j).1, by simp [lowerElse], ?_⟩
+      intro l hl
+      simp only [List.mem_append, List.mem_cons, List.not_mem_nil, or_false, false_or, reduceCtorEq,
+        Stmt.label.injEq] at hl
+      rcases hl with hl | hl
+      · exact Or.inl hl
+      · exact Or.inr (lowerB_range lp b j h l hl)
+  | .elif c t e, cur, done, j, h => by
+      obtain ⟨ht, he⟩ := h
+      obtain ⟨init, hi, hl⟩ := lowerElse_last lp e (lIf j) done (cntB t (j+1)) he
+      have ct := cntB_le t (j+1)
+      have ce := cntE_le e (cntB t (j+1))
+      refine ⟨[.jump done none, .label cur, .jump (chainTgt e j done) (some (notE c))] ++ (lowerB lp t (j+1)).1 ++ init,
+        by rw [lowerElse_elif_eq, hi]; simp [List.append_assoc], ?_⟩
+      intro l hm
+      simp only [List.mem_append, List.mem_cons, List.not_mem_nil, or_false, false_or, reduceCtorEq,
+        Stmt.label.injEq, cntE] at hm ⊢
+      rcases hm with (hm | hm) | hm
+      · exact Or.inl hm
+      · obtain ⟨K, k, rfl, a, b⟩ := lowerB_range lp t (j+1) ht l hm
+        exact Or.inr ⟨K, k, rfl, by omega, by omega⟩
+      · rcases hl l hm with rfl | ⟨K, k, rfl, a, b⟩
+        · exact Or.inr ⟨_, _, rfl, Nat.le_refl _, by omega⟩
+        · exact Or.inr ⟨K, k, rfl, by omega, by omega⟩
+
+theorem eq_of_pos {pb pc : Nat} {f : Nat} {l : Option Env} {st : State W} {a a' b b' : Nat} {o : TOut W}
+    (h : execM₀ cfg f P l base a st = Cont cfg P base pb pc b o) (ha : a' = a) (hb : b' = b) :
+    execM₀ cfg f P l base a' st = Cont cfg P base pb pc b' o := by
+  subst ha; subst hb; exact h
+
 /-- one branch of an `if` chain: conditional jump, then-block, rest of the chain -/
 theorem chain_lemma (lp : Option (Name × Name)) (pb pc : Nat) (c : Expr) (t : List SStmt) (e : SElse) (k : Nat) (done : Name)
     (hB : SimB cfg P base lp pb pc t (k+1)) (hE : SimE cfg P base lp pb pc e (cntB t (k+1)))
@@ -631,33 +678,32 @@ theorem for_lemma (lp : Option (Name × Name)) (pb pc : Nat) (v : Name) (ix : Op
     exact hloop (f5+1) f5 l5 st5 (Nat.lt_succ_self _)
 
 mutual
-theorem simS (lp : Option (Name × Name)) (pb pc : Nat)
-    (hlp : ∀ bl cl, lp = some (bl, cl) → findLabel P bl = some pb ∧ findLabel P cl = some pc) :
-    ∀ (s : SStmt) (i : Nat) (pre post : List Stmt), NoRawS s →
+theorem simS (lp : Option (Name × Name)) (pb pc : Nat) :
+    ∀ (s : SStmt) (i : Nat) (pre post : List Stmt), NoRawS s → LpOK P lp pb pc (usesContS s) →
     P = pre ++ (lowerS lp s i).1 ++ post →
     Fresh pre i (cntS s i) → Fresh post i (cntS s i) →
     ∀ f l st, execM₀ cfg f P l base pre.length st =
       Cont cfg P base pb pc (pre.length + (lowerS lp s i).1.length)
         (execTS cfg (callValue₀ cfg) (execIncludes₀ cfg) lp.isSome s i f l base st)
-  | .expr n e, i, pre, post, _, hP, _, _, f, l, st => by
+  | .expr n e, i, pre, post, _, _, hP, _, _, f, l, st => by
       simp only [lowerS, List.append_assoc, List.cons_append, List.nil_append] at hP
       rw [exec_expr cfg f P l base _ st n e (get_at hP rfl), execTS, Cont_def, bind_stmtExpr]; rfl
-  | .ret none, i, pre, post, _, hP, _, _, f, l, st => by
+  | .ret none, i, pre, post, _, _, hP, _, _, f, l, st => by
       simp only [lowerS, List.append_assoc, List.cons_append, List.nil_append] at hP
       rw [exec_ret_none cfg f P l base _ st (get_at hP rfl), execTS, Cont_def, bind_tick]; rfl
-  | .ret (some e), i, pre, post, _, hP, _, _, f, l, st => by
+  | .ret (some e), i, pre, post, _, _, hP, _, _, f, l, st => by
       simp only [lowerS, List.append_assoc, List.cons_append, List.nil_append] at hP
       rw [exec_ret_some cfg f P l base _ st e (get_at hP rfl), execTS, Cont_def, bind_tick]
       congr 1; funext f' st1
       cases evalExpr cfg (callValue₀ cfg f') l e st1 <;> rfl
-  | .label _, i, pre, post, h, _, _, _, f, l, st => by simp [NoRawS] at h
-  | .jump _ _, i, pre, post, h, _, _, _, f, l, st => by simp [NoRawS] at h
-  | .include incs, i, pre, post, _, hP, _, _, f, l, st => by
+  | .label _, i, pre, post, h, _, _, _, _, f, l, st => by simp [NoRawS] at h
+  | .jump _ _, i, pre, post, h, _, _, _, _, f, l, st => by simp [NoRawS] at h
+  | .include incs, i, pre, post, _, _, hP, _, _, f, l, st => by
       simp only [lowerS, List.append_assoc, List.cons_append, List.nil_append] at hP
       rw [exec_include cfg f P l base _ st incs (get_at hP rfl), execTS, Cont_def, bind_tick]
       congr 1; funext f' st1
       cases execIncludes₀ cfg f' base incs st1 <;> rfl
-  | .brk, i, pre, post, _, hP, _, _, f, l, st => by
+  | .brk, i, pre, post, _, hlp, hP, _, _, f, l, st => by
       cases lp with
       | none => simp [lowerS, execTS, Cont_def, TOut.bind]
       | some p =>
@@ -665,33 +711,78 @@ theorem simS (lp : Option (Name × Name)) (pb pc : Nat)
         simp only [lowerS, List.append_assoc, List.cons_append, List.nil_append] at hP
         rw [exec_jump cfg f P l base _ st bl pb (get_at hP rfl) (hlp bl cl rfl).1]
         simp only [execTS, Option.isSome_some, if_true, Cont_def, bind_tick]; rfl
-  | .cont, i, pre, post, _, hP, _, _, f, l, st => by
+  | .cont, i, pre, post, _, hlp, hP, _, _, f, l, st => by
       cases lp with
       | none => simp [lowerS, execTS, Cont_def, TOut.bind]
       | some p =>
         obtain ⟨bl, cl⟩ := p
         simp only [lowerS, List.append_assoc, List.cons_append, List.nil_append] at hP
-        rw [exec_jump cfg f P l base _ st cl pc (get_at hP rfl) (hlp bl cl rfl).2]
+        rw [exec_jump cfg f P l base _ st cl pc (get_at hP rfl) ((hlp bl cl rfl).2 rfl)]
         simp only [execTS, Option.isSome_some, if_true, Cont_def, bind_tick]; rfl
-  | .func fid n args laa isAsync b, i, pre, post, _, hP, _, _, f, l, st => by
+  | .func fid n args laa isAsync b, i, pre, post, _, _, hP, _, _, f, l, st => by
       simp only [lowerS, List.append_assoc, List.cons_append, List.nil_append] at hP
       rw [exec_func cfg f P l base _ st fid n args laa isAsync _ (get_at hP rfl), execTS, Cont_def, bind_tick]; rfl
-  | .ite c t e, i, pre, post, h, hP, hf1, hf2, f, l, st => by
-      sorry
-  | .while c b, i, pre, post, h, hP, hf1, hf2, f, l, st => by
-      sorry
-  | .for v ix vals b, i, pre, post, h, hP, hf1, hf2, f, l, st => by
-      sorry
-theorem simB (lp : Option (Name × Name)) (pb pc : Nat)
-    (hlp : ∀ bl cl, lp = some (bl, cl) → findLabel P bl = some pb ∧ findLabel P cl = some pc) :
-    ∀ (B : List SStmt) (i : Nat) (pre post : List Stmt), NoRawB B →
+  | .ite c t e, i, pre, post, h, hlp, hP, hf1, hf2, f, l, st => by
+      simp only [NoRawS] at h
+      obtain ⟨ht, he⟩ := h
+      simp only [cntS] at hf1 hf2
+      have ct := cntB_le t (i+1)
+      have ce := cntE_le e (cntB t (i+1))
+      have rt := lowerB_range lp t (i+1) ht
+      rw [lowerS_ite_eq] at hP ⊢
+      obtain ⟨init, hi, hil⟩ := lowerElse_last lp e (lIf i) (lDone i) (cntB t (i+1)) he
+      have hP2 : P = pre ++ [.jump (chainTgt e i (lDone i)) (some (notE c))] ++ (lowerB lp t (i+1)).1 ++
+          (lowerElse lp (lIf i) (lDone i) e (cntB t (i+1))).1 ++ post := by
+        rw [hP]; simp only [List.append_assoc]
+      have hd : findLabel P (lDone i) = some (pre.length + 1 + (lowerB lp t (i+1)).1.length +
+          (lowerElse lp (lIf i) (lDone i) e (cntB t (i+1))).1.length - 1) := by
+        refine find_at (A := pre ++ [.jump (chainTgt e i (lDone i)) (some (notE c))] ++ (lowerB lp t (i+1)).1 ++ init)
+          (B := post) (by rw [hP2, hi]; simp only [List.append_assoc, List.cons_append, List.nil_append])
+          (by rw [hi]; simp only [List.length_append, List.length_cons, List.length_nil]; omega) ?_
+        intro hm
+        simp only [List.mem_append, List.mem_cons, List.not_mem_nil, or_false, reduceCtorEq] at hm
+        rcases hm with (hm | hm) | hm
+        · exact hf1 .done i (Nat.le_refl _) (by omega) hm
+        · obtain ⟨K, k, he', a, b⟩ := rt _ hm
+          simp only [lDone, Name.gen.injEq] at he'; omega
+        · rcases hil _ hm with he' | ⟨K, k, he', a, b⟩
+          · simp [lDone, lIf] at he'
+          · simp only [lDone, Name.gen.injEq] at he'; omega
+      have h1 := chain_lemma cfg P base lp pb pc c t e i (lDone i)
+        (fun pre post hn hP hf1 hf2 f l st =>
+          simB lp pb pc t (i+1) pre post hn (hlp.mono (by simp only [usesContS, Bool.or_eq_true]; exact Or.inl)) hP hf1 hf2 f l st)
+        (fun cur done pre post hn hP hf1 hf2 hc hd hfd f l st =>
+          simE lp pb pc e (cntB t (i+1)) cur done pre post hn
+            (hlp.mono (by simp only [usesContS, Bool.or_eq_true]; exact Or.inr)) hP hf1 hf2 hc hd hfd f l st)
+        ht he pre post hP2 hf1 hf2 (by intro K n h; simp only [lDone, Name.gen.injEq] at h; omega) hd f l st
+      rw [execTS]
+      exact eq_of_pos cfg P base h1 rfl
+        (by simp only [List.length_append, List.length_cons, List.length_nil]; omega)
+  | .while c b, i, pre, post, h, hlp, hP, hf1, hf2, f, l, st => by
+      simp only [NoRawS] at h
+      simp only [cntS] at hf1 hf2
+      exact while_lemma cfg P base lp pb pc c b i
+        (fun pbW pcW h1 h2 pre post hn hP hf1 hf2 f l st =>
+          simB (some (lDone i, lLoop i)) pbW pcW b (i+1) pre post hn
+            (by intro bl cl e; cases e; exact ⟨h1, fun _ => h2⟩) hP hf1 hf2 f l st)
+        h pre post hP hf1 hf2 f l st
+  | .for v ix vals b, i, pre, post, h, hlp, hP, hf1, hf2, f, l, st => by
+      simp only [NoRawS] at h
+      simp only [cntS] at hf1 hf2
+      exact for_lemma cfg P base lp pb pc v ix vals b i
+        (fun pbW pcW h1 h2 pre post hn hP hf1 hf2 f l st =>
+          simB (some (lDone i, lCont i)) pbW pcW b (i+1) pre post hn
+            (by intro bl cl e; cases e; exact ⟨h1, h2⟩) hP hf1 hf2 f l st)
+        h pre post hP hf1 hf2 f l st
+theorem simB (lp : Option (Name × Name)) (pb pc : Nat) :
+    ∀ (B : List SStmt) (i : Nat) (pre post : List Stmt), NoRawB B → LpOK P lp pb pc (usesContB B) →
     P = pre ++ (lowerB lp B i).1 ++ post →
     Fresh pre i (cntB B i) → Fresh post i (cntB B i) →
     ∀ f l st, execM₀ cfg f P l base pre.length st =
       Cont cfg P base pb pc (pre.length + (lowerB lp B i).1.length)
         (execTB cfg (callValue₀ cfg) (execIncludes₀ cfg) lp.isSome B i f l base st)
-  | [], i, pre, post, _, hP, _, _, f, l, st => by simp [lowerB, execTB, Cont_def, TOut.bind]
-  | s :: ss, i, pre, post, h, hP, hf1, hf2, f, l, st => by
+  | [], i, pre, post, _, _, hP, _, _, f, l, st => by simp [lowerB, execTB, Cont_def, TOut.bind]
+  | s :: ss, i, pre, post, h, hlp, hP, hf1, hf2, f, l, st => by
       obtain ⟨hs, hss⟩ := h
       have r1 := lowerS_range lp s i hs
       have r2 := lowerB_range lp ss (cntS s i) hss
@@ -699,7 +790,8 @@ theorem simB (lp : Option (Name × Name)) (pb pc : Nat)
       have c2 := cntB_le ss (cntS s i)
       simp only [lowerB, cntB] at hP hf1 hf2 ⊢
       rw [lowerS_cnt] at hP ⊢
-      have h1 := simS lp pb pc hlp s i pre ((lowerB lp ss (cntS s i)).1 ++ post) hs
+      have h1 := simS lp pb pc s i pre ((lowerB lp ss (cntS s i)).1 ++ post) hs
+        (hlp.mono (by simp only [usesContB, Bool.or_eq_true]; exact Or.inl))
         (by rw [hP]; simp [List.append_assoc])
         (hf1.mono (Nat.le_refl _) c2)
         ((fresh_of_range r2 (Or.inr (Nat.le_refl _))).append (hf2.mono (Nat.le_refl _) c2)) f l st
@@ -707,7 +799,8 @@ theorem simB (lp : Option (Name × Name)) (pb pc : Nat)
       cases hO : execTS cfg (callValue₀ cfg) (execIncludes₀ cfg) lp.isSome s i f l base st with
       | norm l1 st1 f1 =>
         simp only [TOut.bind]
-        have h2 := simB lp pb pc hlp ss (cntS s i) (pre ++ (lowerS lp s i).1) post hss
+        have h2 := simB lp pb pc ss (cntS s i) (pre ++ (lowerS lp s i).1) post hss
+          (hlp.mono (by simp only [usesContB, Bool.or_eq_true]; exact Or.inr))
           (by rw [hP]; simp [List.append_assoc])
           ((hf1.mono c1 (Nat.le_refl _)).append (fresh_of_range r1 (Or.inl (Nat.le_refl _))))
           (hf2.mono c1 (Nat.le_refl _)) f1 l1 st1
@@ -719,6 +812,90 @@ theorem simB (lp : Option (Name × Name)) (pb pc : Nat)
       | ret v st1 => rfl
       | err e st1 => rfl
       | oof => rfl
+theorem simE (lp : Option (Name × Name)) (pb pc : Nat) :
+    ∀ (e : SElse) (j : Nat) (cur done : Name) (pre post : List Stmt), NoRawE e → LpOK P lp pb pc (usesContE e) →
+    P = pre ++ (lowerElse lp cur done e j).1 ++ post →
+    Fresh pre j (cntE e j) → Fresh post j (cntE e j) →
+    (∀ K n, cur = .gen K n → n < j) → (∀ K n, done = .gen K n → n < j) →
+    findLabel P done = some (pre.length + (lowerElse lp cur done e j).1.length - 1) →
+    ∀ f l st, execM₀ cfg f P l base (pre.length + elseEntry e) st =
+      Cont cfg P base pb pc (pre.length + (lowerElse lp cur done e j).1.length)
+        (execTE cfg (callValue₀ cfg) (execIncludes₀ cfg) lp.isSome e j f l base st)
+  | .none, j, cur, done, pre, post, _, _, hP, _, _, _, _, _, f, l, st => by
+      simp [lowerElse, execTE, elseEntry, Cont_def, TOut.bind]
+  | .els b, j, cur, done, pre, post, h, hlp, hP, hf1, hf2, hcur, hdone, hd, f, l, st => by
+      simp only [NoRawE] at h
+      simp only [cntE] at hf1 hf2
+      simp only [lowerElse] at hP ⊢
+      have hP' : P = pre ++ .jump done none :: .label cur :: ((lowerB lp b j).1 ++ .label done :: post) := by
+        rw [hP]; simp [List.append_assoc]
+      have h1 := simB lp pb pc b j (pre ++ [.jump done none, .label cur]) (.label done :: post) h
+        (hlp.mono (by simp only [usesContE]; exact id))
+        (by rw [hP']; simp [List.append_assoc])
+        (by
+          intro K n a b' hm
+          simp only [List.mem_append, List.mem_cons, List.not_mem_nil, or_false, false_or, reduceCtorEq,
+            Stmt.label.injEq] at hm
+          rcases hm with hm | hm
+          · exact hf1 K n a b' hm
+          · have := hcur K n hm.symm; omega)
+        (by
+          intro K n a b' hm
+          simp only [List.mem_cons, Stmt.label.injEq] at hm
+          rcases hm with hm | hm
+          · have := hdone K n hm.symm; omega
+          · exact hf2 K n a b' hm)
+        f l st
+      have hg : P[pre.length + 2 + (lowerB lp b j).1.length]? = some (.label done) :=
+        get_at (A := pre ++ .jump done none :: .label cur :: (lowerB lp b j).1) (B := post)
+          (by rw [hP']; simp [List.append_assoc]) (by simp <;> omega)
+      rw [execTE]
+      refine Eq.trans (eq_of_pos cfg P base h1 (by simp [elseEntry]) rfl) ?_
+      simp only [Cont_def]
+      cases hO : execTB cfg (callValue₀ cfg) (execIncludes₀ cfg) lp.isSome b j f l base st with
+      | norm l1 st1 f1 =>
+        show execM₀ cfg f1 P l1 base _ st1 = (stmtSkip cfg f1 l1 st1).bind _ _ _
+        rw [bind_stmtSkip]
+        refine Eq.trans (congrArg (fun n => execM₀ cfg f1 P l1 base n st1) ?_)
+          (exec_label cfg f1 P l1 base _ st1 done hg)
+        · simp only [List.length_append, List.length_cons, List.length_nil]; omega
+        · congr 1; funext l st f; congr 1
+          simp only [List.length_append, List.length_cons, List.length_nil]; omega
+      | brk l1 st1 f1 => rfl
+      | cont l1 st1 f1 => rfl
+      | ret v st1 => rfl
+      | err e st1 => rfl
+      | oof => rfl
+  | .elif c t e, j, cur, done, pre, post, h, hlp, hP, hf1, hf2, hcur, hdone, hd, f, l, st => by
+      simp only [NoRawE] at h
+      obtain ⟨ht, he⟩ := h
+      simp only [cntE] at hf1 hf2
+      have ct := cntB_le t (j+1)
+      have ce := cntE_le e (cntB t (j+1))
+      rw [lowerElse_elif_eq] at hP hd ⊢
+      have hP2 : P = (pre ++ [.jump done none, .label cur]) ++ [.jump (chainTgt e j done) (some (notE c))] ++
+          (lowerB lp t (j+1)).1 ++ (lowerElse lp (lIf j) done e (cntB t (j+1))).1 ++ post := by
+        rw [hP]; simp [List.append_assoc]
+      have h1 := chain_lemma cfg P base lp pb pc c t e j done
+        (fun pre post hn hP hf1 hf2 f l st =>
+          simB lp pb pc t (j+1) pre post hn (hlp.mono (by simp only [usesContE, Bool.or_eq_true]; exact Or.inl)) hP hf1 hf2 f l st)
+        (fun cur done pre post hn hP hf1 hf2 hc hd hfd f l st =>
+          simE lp pb pc e (cntB t (j+1)) cur done pre post hn
+            (hlp.mono (by simp only [usesContE, Bool.or_eq_true]; exact Or.inr)) hP hf1 hf2 hc hd hfd f l st)
+        ht he (pre ++ [.jump done none, .label cur]) post hP2
+        (by
+          intro K n a b' hm
+          simp only [List.mem_append, List.mem_cons, List.not_mem_nil, or_false, false_or, reduceCtorEq,
+            Stmt.label.injEq] at hm
+          rcases hm with hm | hm
+          · exact hf1 K n a b' hm
+          · have := hcur K n hm.symm; omega)
+        hf2 (fun K n h => Nat.le_of_lt (hdone K n h))
+        (by rw [hd]; simp only [List.length_append, List.length_cons, List.length_nil]; congr 1; omega)
+        f l st
+      rw [execTE]
+      exact eq_of_pos cfg P base h1 (by simp [elseEntry])
+        (by simp only [List.length_append, List.length_cons, List.length_nil]; omega)
 end
 
 end C01
